@@ -213,7 +213,7 @@ def decorate(prog, rng, p_item=0.35):
 
 
 KEYWORD_FIELDS = ["class", "new", "default", "template", "namespace", "delete", "operator", "register", "int", "auto", "union", "typename",
-                  "private", "friend", "export", "this"]
+                  "private", "friend", "export", "this"] + [k for k in spec.C_FAMILY_KEYWORDS if not k.startswith("_")]
 NAMESPACES = ["ns", "outer::inner", "a::b::c", "other", "outer::sibling", "outer"]
 
 
